@@ -11,8 +11,8 @@ import numpy as np
 import common as C
 import eom_common as EC
 
-LEAN_MODULE = "WallGoVerif.Props.C01"
-LEMMA_MODULES = ["WallGoVerif.Lemmas.SolveWall", "WallGoVerif.Model.SolveWall"]
+LEAN_MODULES = ["WallGoVerif.Props.C01", "WallGoVerif.Props.C01D"]
+LEMMA_MODULES = ["WallGoVerif.Lemmas.SolveWall", "WallGoVerif.Model.SolveWall", "WallGoVerif.Lemmas.DetonScan", "WallGoVerif.Model.DetonScan"]
 GEN_MODULES = []
 RULE = ("obligations = Lean theorems of Props.C01 about Model.SolveWall (success with a velocity => final bracket pMin<=0<=pMax, velocity is "
         "brentq's answer inside [vMin*2^k, vMax], all five failure flags of the LAST wallPressure call good; runaway <=> pMax<0 and no "
@@ -385,12 +385,15 @@ def _manager_histories(rep: C.Report, tier: str):
     from WallGo.containers import WallParams
     r = C.rng("C01manager")
     configs = [(20, 1e-2), (30, 1e-4)] if tier == "quick" else [(20, 1e-2), (30, 1e-4), (24, 1e-3), (36, 3e-4)]
+    # GeV-like units (Tn = 115): anything the manager converts with Tnucl more than once per build shows after one repetition
+    U = 100.0
     fresh = {}
     for cfg in configs:
-        fresh[cfg] = MC.new_manager(*cfg).solveWall(MC.settings())
+        fresh[cfg] = MC.new_manager(*cfg, u=U).solveWall(MC.settings())
         rep.count("manager fresh solves")
     for Tn2 in ((1.12,) if tier == "quick" else (1.12, 1.18)):
-        m = MC.new_manager(*configs[0])
+        m = MC.new_manager(*configs[0], u=U)
+        config_before = repr(m.config)
         seq = list(configs) + [configs[0]]
         if tier == "thorough":
             seq += [r.choice(configs) for _ in range(3)]
@@ -402,9 +405,9 @@ def _manager_histories(rep: C.Report, tier: str):
                 if between == "lte":
                     m.wallSpeedLTE()
                 elif between == "other-point":            # previous benchmark point on the same manager, then back
-                    MC.setup(m, Tn2)
+                    MC.setup(m, Tn2, U)
                     m.solveWall(MC.settings())
-                    MC.setup(m, 1.15)
+                    MC.setup(m, 1.15, U)
                 elif between == "detonation":
                     m.solveWallDetonation(MC.settings(), onlySmallest=True)
             except Exception:  # noqa: BLE001
@@ -413,13 +416,18 @@ def _manager_histories(rep: C.Report, tier: str):
             ref = fresh[cfg]
             rep.case(key=("manager-history", cfg, between, step))
             rep.count("manager history solves")
-            info = {"model": "toy1 via WallGoManager (harness/manager_common.py)", "history": [list(c) for c in seq[:step + 1]], "between": between,
+            info = {"model": f"toy1 (unit factor {U}) via WallGoManager (harness/manager_common.py)", "history": [list(c) for c in seq[:step + 1]], "between": between,
                     "config(spatialGridSize, errTol)": list(cfg), "velocity_on_reused_manager": got.wallVelocity, "velocity_fresh_manager": ref.wallVelocity,
                     "profile_points": len(np.asarray(got.temperatureProfile)), "expected_profile_points": cfg[0] + 1}
             same = (got.success == ref.success and got.solutionType == ref.solutionType and got.wallVelocity is not None and ref.wallVelocity is not None
                     and abs(got.wallVelocity - ref.wallVelocity) <= 1e-12 and abs(got.temperaturePlus - ref.temperaturePlus) <= 1e-10
                     and np.asarray(got.temperatureProfile).shape == np.asarray(ref.temperatureProfile).shape
                     and np.allclose(got.wallWidths, ref.wallWidths, rtol=0, atol=1e-10))
+            m.config.configGrid.spatialGridSize, m.config.configEOM.errTol = configs[0]
+            if repr(m.config) != config_before:
+                rep.violation("solver calls changed the manager's configuration behind the user's back", dict(info, config_after=repr(m.config)[:600]),
+                              finding_key="C01:manager-config-mutated")
+            m.config.configGrid.spatialGridSize, m.config.configEOM.errTol = cfg
             if not same:
                 rep.violation("solveWall on a manager with a history returns a different result than a fresh manager with the same model and settings",
                               info, finding_key="C01:manager-history")
